@@ -597,6 +597,12 @@ func sameErr(a, b error) bool {
 
 // runDecoder drives one decoder over r under recover and evaluates the in-run oracles.
 func runDecoder(format string, o Opts, r io.Reader) (out Outcome) {
+	return runDecoderWith(nil, format, o, r)
+}
+
+// runDecoderWith: the decoder is constructed by m (option values built earlier and possibly used
+// before: reuse.go); nil = freshly built plain option values.
+func runDecoderWith(m maker, format string, o Opts, r io.Reader) (out Outcome) {
 	t0 := time.Now()
 	defer func() {
 		out.Elapsed = time.Since(t0)
@@ -609,7 +615,10 @@ func runDecoder(format string, o Opts, r io.Reader) (out Outcome) {
 			out.Verdict = "panic"
 		}
 	}()
-	d, err := build(format, o, r)
+	if m == nil {
+		m = newMaker(format, o, "")
+	}
+	d, err := m(r)
 	if err != nil {
 		out.Verdict, out.Err = "error", "new: "+err.Error()
 		out.ErrIsInj = errors.Is(err, errInjected) || strings.Contains(err.Error(), errInjected.Error())
